@@ -1,10 +1,81 @@
-(* C12 — Key hash on the wire follows DDS-XTypes 7.6.8.
-   Property file: statements, `exact`, non-vacuity, assumptions. *)
-From DustDDS Require Import Base.Machine KeyHash.Md5Model KeyHash.KeyModel KeyHash.KeyProofs.
+(* C12 — Key hash on the wire follows DDS-XTypes 7.6.8: the big-endian XCDR serialization
+   of the key members, zero-padded to 16 bytes when the key's maximum serialized size is
+   at most 16 bytes, its MD5 digest otherwise.
+   Property file: statements, `exact`, non-vacuity, assumptions.
+
+   Vocabulary (KeyHash/KeyModel.v): `instance_handle t d` is what the code computes (it
+   is both the handle and the PID_KEY_HASH value); `key_bytes t d` the big-endian XCDR1
+   serialization of the key holder; `key_max_le16 t`: the maximum serialized size of the
+   key of type t is at most 16 bytes (max_end); `spec_handle t d` the value 7.6.8
+   prescribes; `short_of_long t d`: the key type can pass 16 bytes but this sample's
+   serialized key is at most 16 bytes long. *)
+From DustDDS Require Import Base.Machine KeyHash.Md5Model KeyHash.KeyModel KeyHash.KeyProofs
+  KeyHash.KeyMainProofs KeyHash.KeyMaxProofs.
 Open Scope Z_scope.
 
-Theorem C12_md5_rfc1321_vector_abc :
-  md5 [97; 98; 99] = [144; 1; 80; 152; 60; 210; 79; 176; 214; 150; 63; 125; 40; 225; 127; 114].
-Proof. exact md5_rfc_3. Qed.
+(* what the rule says, spelled out *)
+Theorem C12_spec_handle_is_the_7_6_8_rule :
+  forall t d, spec_handle t d =
+    match key_bytes t d with
+    | Ok b => Ok (if key_max_le16 t then b ++ zeros (16 - len b) else md5 b)
+    | Err c => Err c
+    | Panic s => Panic s
+    end.
+Proof. intros. unfold spec_handle. destruct (key_bytes t d); reflexivity. Qed.
 
-Print Assumptions C12_md5_rfc1321_vector_abc.
+(* the maximum-size computation is an upper bound of every well-formed key *)
+Theorem C12_max_size_bounds_every_key :
+  forall t d b, key_type_ok t = true -> key_ids_unique t = true -> key_ok t d = true ->
+    key_max_le16 t = true -> key_bytes t d = Ok b -> len b <= 16.
+Proof. exact key_max_le16_sound. Qed.
+
+(* the handle follows 7.6.8 outside the class where the actual length and the maximum
+   length fall on different sides of 16 *)
+Theorem C12_handle_follows_rule_outside_short_of_long :
+  forall t d, key_type_ok t = true -> key_ids_unique t = true -> key_ok t d = true ->
+    short_of_long t d = false -> instance_handle t d = spec_handle t d.
+Proof. exact spec_handle_outside_class. Qed.
+
+(* inside that class the rule is violated: struct { @key string name } with name = "ab" is
+   zero-padded instead of hashed (recorded finding C12-actual-length) *)
+Theorem C12_short_of_long_class_refutes_rule :
+  exists t d, key_type_ok t = true /\ key_ids_unique t = true /\ key_ok t d = true /\
+    short_of_long t d = true /\
+    instance_handle t d = Ok [0;0;0;3;97;98;0;0;0;0;0;0;0;0;0;0] /\
+    instance_handle t d <> spec_handle t d.
+Proof. exact spec_handle_refuted. Qed.
+
+(* MD5 in Coq against RFC 1321 A.5 ("abc" and the 80-digit string: two blocks) *)
+Theorem C12_md5_rfc1321_vectors :
+  md5 [97; 98; 99] = [144; 1; 80; 152; 60; 210; 79; 176; 214; 150; 63; 125; 40; 225; 127; 114] /\
+  md5 [49;50;51;52;53;54;55;56;57;48;49;50;51;52;53;54;55;56;57;48;49;50;51;52;53;54;55;56;57;48;
+       49;50;51;52;53;54;55;56;57;48;49;50;51;52;53;54;55;56;57;48;49;50;51;52;53;54;55;56;57;48;
+       49;50;51;52;53;54;55;56;57;48;49;50;51;52;53;54;55;56;57;48] =
+  [87; 237; 244; 162; 43; 227; 201; 85; 172; 73; 218; 46; 33; 7; 182; 122].
+Proof. exact (conj md5_rfc_3 md5_rfc_7). Qed.
+
+(* non-vacuity: { @key u32, @key u64 } has maximum size 16 and is zero padded; with a third
+   key member u8 the maximum is 17 and the key is hashed; both follow the rule *)
+Definition ex_t16 : ty :=
+  TStruct Final (MCons 0 true false (TPrim PU32) (MCons 1 true false (TPrim PU64) MNil)).
+Definition ex_t17 : ty :=
+  TStruct Final (MCons 0 true false (TPrim PU32) (MCons 1 true false (TPrim PU64)
+                (MCons 2 true false (TPrim PU8) MNil))).
+Definition ex_d16 : fields := FCons 0 (VPrim SU32 1) (FCons 1 (VPrim SU64 2) FNil).
+Definition ex_d17 : fields := FCons 0 (VPrim SU32 1) (FCons 1 (VPrim SU64 2) (FCons 2 (VPrim SU8 3) FNil)).
+
+Example C12_nonvacuous :
+  key_type_ok ex_t16 = true /\ key_ids_unique ex_t16 = true /\ key_ok ex_t16 ex_d16 = true /\
+  key_max_le16 ex_t16 = true /\ short_of_long ex_t16 ex_d16 = false /\
+  instance_handle ex_t16 ex_d16 = Ok [0;0;0;1;0;0;0;0;0;0;0;0;0;0;0;2] /\
+  key_type_ok ex_t17 = true /\ key_ok ex_t17 ex_d17 = true /\
+  key_max_le16 ex_t17 = false /\ short_of_long ex_t17 ex_d17 = false /\
+  key_bytes ex_t17 ex_d17 = Ok [0;0;0;1;0;0;0;0;0;0;0;0;0;0;0;2;3] /\
+  instance_handle ex_t17 ex_d17 = Ok (md5 [0;0;0;1;0;0;0;0;0;0;0;0;0;0;0;2;3]).
+Proof. repeat (match goal with |- _ /\ _ => split end); vm_compute; reflexivity. Qed.
+
+Print Assumptions C12_spec_handle_is_the_7_6_8_rule.
+Print Assumptions C12_max_size_bounds_every_key.
+Print Assumptions C12_handle_follows_rule_outside_short_of_long.
+Print Assumptions C12_short_of_long_class_refutes_rule.
+Print Assumptions C12_md5_rfc1321_vectors.
